@@ -98,6 +98,9 @@ func checkC01(c *Ctx) {
 	c01ZA(c)
 	c01DER(c)
 	c01Consumers(c)
+	if rows, _ := sigDetails(c); len(rows) > 0 {
+		c09Verifier(c, rows) // the x509 consumer hands SM2-curve keys to Sm2Verify over the raw bytes (rule of C09)
+	}
 	// the verifier computes [s]G + [t]P with the curve's Add: its special cases (P = Q, infinity) are part of
 	// completeness — a valid signature whose two summands coincide must still verify
 	c03Tables(c)
@@ -108,6 +111,7 @@ func checkC01(c *Ctx) {
 	if w, sm := c.Fn("sm3", "(*SM3).Write"), c.Fn("sm3", "(*SM3).Sum"); w != nil && sm != nil {
 		c04LenPad(c, w, sm)
 	}
+	noPointerParamWrites(c, "FX-C01-pure", "sm2", []string{"Sm2Sign", "Sm2Verify", "Verify"}, "the caller's key (or r, s) is changed by signing / verifying: later operations with the same object give different results")
 	noGlobalWrites(c, "FX-C01-pure", [][2]string{{"sm2", "Sm2Sign"}, {"sm2", "Sm2Verify"}, {"sm2", "(*PrivateKey).Sign"}, {"sm2", "(*PublicKey).Verify"}, {"sm2", "Verify"}},
 		"a signature (or a verdict) depends on other calls — e.g. a DER buffer taken from a pool and returned to it is overwritten by the next Sign")
 	fixedWidthHashed(c, "P-WIDTH-hash")
